@@ -29,6 +29,11 @@ func (fr *frame) native(t types.Type, v Value, depth int) any {
 			// error-message text: a symbolic number is printed as a placeholder instead of forking
 			return rawText("<n>")
 		}
+		if m.IntTokens && !v.IsConst() && v.W != 0 {
+			// abstract codec: the decimal text of a symbolic integer is an opaque token that is
+			// equal for structurally equal terms
+			return rawText(m.keyedToken("int", termKey(v), v))
+		}
 		if w == 0 && v.W == 0 {
 			return fr.conc(v, "fmt bool") == 1
 		}
